@@ -7,7 +7,7 @@ use stat::parse_stats;
 use crate::{
     grammar::ParseFailReason,
     kind::{LuaSyntaxKind, LuaTokenKind},
-    parser::{LuaParser, MarkerEventContainer},
+    parser::{CompleteMarker, LuaParser, MarkerEventContainer},
     parser_error::LuaParseError,
 };
 
@@ -74,10 +74,19 @@ pub fn parse_chunk(p: &mut LuaParser) {
 }
 
 fn parse_block(p: &mut LuaParser) -> ParseResult {
+    if !p.enter_nesting() {
+        p.push_error(LuaParseError::syntax_error_from(
+            &t!("block is nested too deeply"),
+            p.current_token_range(),
+        ));
+        // not an Err: callers such as parse_closure_expr hold an open marker across `parse_block(p)?`
+        return Ok(CompleteMarker::empty());
+    }
     let m = p.mark(LuaSyntaxKind::Block);
 
     parse_stats(p);
 
+    p.leave_nesting();
     Ok(m.complete(p))
 }
 
